@@ -34,6 +34,8 @@ func main() {
 		os.Exit(cmdList(os.Args[2:]))
 	case "replay":
 		os.Exit(cmdReplay(os.Args[2:]))
+	case "prelude":
+		fmt.Print("(set-logic ALL)\n" + Prelude() + "(check-sat)\n")
 	default:
 		usage()
 	}
@@ -171,6 +173,7 @@ func cmdCheck(args []string) int {
 	repo := fs.String("repo", "/repo", "")
 	verif := fs.String("verif", "/verif", "")
 	only := fs.String("func", "", "restrict to one function key (debug; no evidence written)")
+	outDir := fs.String("out", "", "directory for work/, replays/, evidence/ (default: the verif directory)")
 	verbose := fs.Bool("v", false, "")
 	keep := fs.Bool("keep", false, "keep all SMT files")
 	fs.Parse(fl)
@@ -203,7 +206,10 @@ func cmdCheck(args []string) int {
 		}
 		return 2
 	}
-	workDir := filepath.Join(*verif, "work", prop)
+	if *outDir == "" {
+		*outDir = *verif
+	}
+	workDir := filepath.Join(*outDir, "work", prop)
 	os.RemoveAll(workDir)
 	os.MkdirAll(workDir, 0o755)
 
@@ -221,6 +227,7 @@ func cmdCheck(args []string) int {
 	var obls []*Obl
 	trusted := map[string]bool{}
 	inlined := map[string]bool{}
+	usedContracts := map[string]bool{}
 	for _, k := range keys {
 		if *only != "" && k != *only {
 			continue
@@ -254,6 +261,9 @@ func cmdCheck(args []string) int {
 			}
 			for t := range r.Ctx.inlined {
 				inlined[t] = true
+			}
+			for t := range r.Ctx.usedContracts {
+				usedContracts[t] = true
 			}
 			for _, o := range r.Obls {
 				if o.Props != nil && !hasProp(o.Props, prop) {
@@ -316,7 +326,7 @@ func cmdCheck(args []string) int {
 	nViol := 0
 	exit := 0
 	var samples []map[string]interface{}
-	replayDir := filepath.Join(*verif, "replays", prop)
+	replayDir := filepath.Join(*outDir, "replays", prop)
 	os.MkdirAll(replayDir, 0o755)
 	sort.SliceStable(obls, func(i, j int) bool { return obls[i].Name < obls[j].Name })
 	for _, o := range obls {
@@ -467,6 +477,7 @@ func cmdCheck(args []string) int {
 			"checker_cmd":              fmt.Sprintf("bin/govc check %s --tier %s (go/ssa naive form of /repo working tree -> path VCs -> z3-new | z3 | cvc5, %ds per query)", prop, *tier, timeoutS),
 			"trusted_base":             tb,
 			"functions_under_contract": fkeys,
+			"callee_contracts_used":    sortedKeys(usedContracts),
 			"queries":                  len(allQ),
 			"by_backend":               byBackend,
 			"solver_time_s":            map[string]float64{"sum": round3(solverTime), "max_single_query": round3(maxTime)},
@@ -483,9 +494,9 @@ func cmdCheck(args []string) int {
 			"bounded_standins":         []string{},
 		},
 	}
-	os.MkdirAll(filepath.Join(*verif, "evidence"), 0o755)
+	os.MkdirAll(filepath.Join(*outDir, "evidence"), 0o755)
 	b, _ := json.MarshalIndent(ev, "", " ")
-	os.WriteFile(filepath.Join(*verif, "evidence", prop+".json"), b, 0o644)
+	os.WriteFile(filepath.Join(*outDir, "evidence", prop+".json"), b, 0o644)
 	if !*keep && exit == 0 {
 		os.RemoveAll(workDir)
 	}
